@@ -250,14 +250,14 @@ End Counting.
 Lemma bool_eq_iff : forall a b : bool, (a = true <-> b = true) -> a = b.
 Proof. intros [|] [|] H; auto; [symmetry|]; apply H; reflexivity. Qed.
 
-Lemma sub_rows_of : forall c h t, Forall (fun r => length (kvals r) = c) h -> length t = c ->
+Lemma sub_rows_of : forall sch h t, Forall (fun r => conforms sch (ktuple_of r)) h -> conforms sch t ->
   filter (fun r => bytes_eqb (cnt_key r) (tuple_key s_global t)) h = krows_of t h.
 Proof.
-  intros c h t HC Lt. unfold krows_of. apply filter_ext_in. intros r Hr.
+  intros sch h t HC Ct. unfold krows_of. apply filter_ext_in. intros r Hr.
   apply bool_eq_iff. rewrite bytes_eqb_iff, ktuple_eqb_iff.
   rewrite Forall_forall in HC. specialize (HC r Hr).
   unfold cnt_key, win_key. split.
-  - apply tuple_key_inj. rewrite ktuple_of_length. congruence.
+  - apply tuple_key_inj. eapply conforms_same_kind; eauto.
   - intros ->. reflexivity.
 Qed.
 
@@ -266,25 +266,25 @@ Theorem counting_key_isolation : forall n h k,
   = cw_run n (filter (fun r => bytes_eqb (cnt_key r) k) h).
 Proof. intros. unfold cw_run. apply key_isolation_gen. Qed.
 
-Theorem counting_ith_batch : forall n c h t i, 1 <= n ->
-  Forall (fun r => length (kvals r) = c) h -> length t = c ->
+Theorem counting_ith_batch : forall n sch h t i, 1 <= n ->
+  Forall (fun r => conforms sch (ktuple_of r)) h -> conforms sch t ->
   nth_error (kbatches_of (tuple_key s_global t) (cw_run n h)) i =
     if S i * n <=? length (krows_of t h)
     then Some (firstn n (skipn (i * n) (krows_of t h))) else None.
 Proof.
-  intros n c h t i Hn HC Lt. unfold kbatches_of, cw_run.
+  intros n sch h t i Hn HC Lt. unfold kbatches_of, cw_run.
   rewrite c_run_proj. simpl cw_buf_get.
-  rewrite (sub_rows_of c h t HC Lt).
+  rewrite (sub_rows_of sch h t HC Lt).
   rewrite run1_nth by (simpl; lia). reflexivity.
 Qed.
 
-Theorem counting_no_partial : forall n c h t, 1 <= n ->
-  Forall (fun r => length (kvals r) = c) h -> length t = c ->
+Theorem counting_no_partial : forall n sch h t, 1 <= n ->
+  Forall (fun r => conforms sch (ktuple_of r)) h -> conforms sch t ->
   length (kbatches_of (tuple_key s_global t) (cw_run n h)) = length (krows_of t h) / n
   /\ Forall (fun b => length b = n) (kbatches_of (tuple_key s_global t) (cw_run n h)).
 Proof.
-  intros n c h t Hn HC Lt. apply nth_closed_length; [exact Hn|].
-  intro i. apply (counting_ith_batch n c h t i Hn HC Lt).
+  intros n sch h t Hn HC Lt. apply nth_closed_length; [exact Hn|].
+  intro i. apply (counting_ith_batch n sch h t i Hn HC Lt).
 Qed.
 
 Theorem counting_batch_one_tuple : forall n h k rs r,
@@ -359,13 +359,13 @@ Proof.
 Qed.
 
 (* what the checker expects for a key (clause ith_batch) is exactly what the model delivers *)
-Theorem counting_matches_spec_blocks : forall n c h t, 1 <= n ->
-  Forall (fun r => length (kvals r) = c) h -> length t = c ->
+Theorem counting_matches_spec_blocks : forall n sch h t, 1 <= n ->
+  Forall (fun r => conforms sch (ktuple_of r)) h -> conforms sch t ->
   map (map krid) (kbatches_of (tuple_key s_global t) (cw_run n h))
   = let ids := map krid (krows_of t h) in chunks (length ids) n ids.
 Proof.
-  intros n c h t Hn HC Lt. simpl. apply nth_error_eq_ext. intro i.
-  rewrite nth_error_map, (counting_ith_batch n c h t i Hn HC Lt).
+  intros n sch h t Hn HC Lt. simpl. apply nth_error_eq_ext. intro i.
+  rewrite nth_error_map, (counting_ith_batch n sch h t i Hn HC Lt).
   rewrite chunks_nth by (auto; lia). rewrite map_length.
   destruct (S i * n <=? length (krows_of t h)); simpl; [|reflexivity].
   rewrite skipn_map, firstn_map. reflexivity.
